@@ -9,8 +9,9 @@
      jls_wr_ts_close           wm_ts_close
 
    Pending entries of a level are kept most-recent-FIRST with explicit counts; summary entries are their
-   16 encoded bytes.  Out of domain (fault): decimate_factor <= 1 (the C overflows the malloc'ed arrays
-   - 0 - or fails in alloc(16) and then overflows - 1 -), and commit(15, NORMAL) (alloc(16) fails).
+   16 encoded bytes.  Out of domain (fault): decimate_factor <= 1 (the C would overflow the malloc'ed arrays
+   - 0 - or fail in alloc(16) and then overflow - 1 -; unreachable since jls_core_signal_def_align clamps the
+   annotation/utc decimate factors to >= 10), and commit(15, NORMAL) (alloc(16) fails; needs 10^15 records).
    Definitions only. *)
 From Coq Require Import NArith ZArith List Bool.
 From JLS Require Import Generated CrcDefs Format WmRaw WmCore.
